@@ -631,3 +631,22 @@ Theorem C14_readback_noorder_from_ryu_interval_partial :
                            (map (map (rb_cell int_to_float_spec)) (trows tg))).
 Proof. intros HR pf f t HP. exact (readback_noorder_from_spec pf f t HP HR). Qed.
 Print Assumptions C14_readback_noorder_from_ryu_interval_partial.
+
+(* ---------------------------------------------------------------- the Ryu premise is a theorem now
+   ryu_in_interval is proved for every bit pattern (Proofs/RyuHandoverJson.v ryu_in_interval_holds, from C16's
+   C16_float64ToDecimal_shortest / C16_exact_int_shortest), so the three statements above hold with the
+   specification of strconv.ParseFloat (parse_float_correct: correct rounding) as the only assumption about
+   floats left - a hypothesis about the standard library, stated inside each statement, not about qframe. *)
+From QF Require Proofs.RyuHandoverJson.
+
+Theorem C14_full : C14_full_statement.
+Proof. exact (C14_full_from_ryu_interval_partial RyuHandoverJson.ryu_in_interval_holds). Qed.
+Print Assumptions C14_full.
+
+Theorem C14_full_ints : C14_full_statement_ints.
+Proof. exact (C14_full_ints_from_ryu_interval_partial RyuHandoverJson.ryu_in_interval_holds). Qed.
+Print Assumptions C14_full_ints.
+
+Definition C14_readback_noorder_full :=
+  C14_readback_noorder_from_ryu_interval_partial RyuHandoverJson.ryu_in_interval_holds.
+Print Assumptions C14_readback_noorder_full.
